@@ -241,7 +241,7 @@ func TestC17_LongForm(t *testing.T) {
 		return v
 	}
 	check(t, "C17", 150, func(t *rapid.T) {
-		method := rapid.SampledFrom([]string{"ion", "ion", "ionx", "io", "orb", "a1"}).Draw(t, "method")
+		method := rapid.SampledFrom([]string{"ion", "ion", "ionx", "io", "orb", "a1", "ion:test", "sidetree:local:dev"}).Draw(t, "method")
 		ns := "did:" + method
 		v := vdrFor(method)
 		d := genC17Doc(t)
@@ -362,6 +362,21 @@ func TestC17_LongForm(t *testing.T) {
 		if refJCS(prt) != refJCS(rt) {
 			t.Fatalf("C17 ProcessOperation and ResolveDocument disagree\n process %s\n resolve %s", refJCS(prt), refJCS(rt))
 		}
+		// the same create request in another JSON spelling denotes the same DID, and the DID returned for it resolves
+		spelled := []byte(spell(t, req, 2))
+		if len(spelled) <= 2500 { // the built-in protocol's operation size limit applies to the bytes as received
+			pr2, err := h.ProcessOperation(spelled)
+			if err != nil {
+				t.Fatalf("C17 ProcessOperation refused a re-spelled create request: %v\n%s", err, spelled)
+			}
+			if pr2.Document.ID() != did {
+				t.Fatalf("C17 ProcessOperation returns another DID for a re-spelled create request:\n %s\n %s", pr2.Document.ID(), did)
+			}
+			if _, err := h.ResolveDocument(pr2.Document.ID()); err != nil {
+				t.Fatalf("C17 the DID returned by ProcessOperation does not resolve: %v", err)
+			}
+			st.Label("process-respelled")
+		}
 
 		mustReject := func(what, bad string) {
 			if bad == did {
@@ -452,8 +467,8 @@ func TestC17_LongForm(t *testing.T) {
 		mustReject("DID whose suffix belongs to other suffix data", ns+":"+otherSuffix+":"+state)
 		// namespaces related by prefix
 		for _, om := range []string{"ion", "ionx", "io", "i", "orb", "a1", "a", "a12"} {
-			if om == method {
-				continue
+			if om == method || strings.HasPrefix(method, om+":") || strings.HasPrefix(om, method+":") {
+				continue // nested namespaces (did:ion vs did:ion:test) are not "another method": nothing is asserted
 			}
 			oh := handlerFor("did:" + om)
 			if r, err := oh.ResolveDocument(did); err == nil {
